@@ -93,10 +93,10 @@ Grow == /\ Len(s) < MaxLen(kind)
 Spec == Init /\ [][Grow]_vars
 
 FindRow == [j \in 1..Len(Needles) |-> <<Find(s, Needles[j]), FindIdx(s, Needles[j])>>]
-\* old-major; empty `old` is not modelled (row entry [m |-> FALSE])
+\* old-major; an empty `old` inserts at every boundary (StrOps!Replace)
 ReplaceRow == [j \in 1..(Len(Olds) * Len(News)) |->
                  LET old == Olds[((j - 1) \div Len(News)) + 1]  new == News[((j - 1) % Len(News)) + 1]
-                 IN IF old = <<>> THEN [m |-> FALSE, r |-> <<>>] ELSE [m |-> TRUE, r |-> Replace(s, old, new)]]
+                 IN [m |-> TRUE, r |-> Replace(s, old, new)]]
 SplitRow == [j \in 1..Len(Pats) |-> IF Pats[j] = <<>> THEN [m |-> FALSE, r |-> <<>>] ELSE [m |-> TRUE, r |-> Split(s, Pats[j])]]
 SliceRow == [j \in 1..(Len(Bounds) * Len(Bounds)) |->
                LET a == Bounds[((j - 1) \div Len(Bounds)) + 1]  b == Bounds[((j - 1) % Len(Bounds)) + 1]
